@@ -14,8 +14,11 @@ pub const ALL: &[(&str, H)] = &[
     ("h_batch::verify_pins_public_input_count", crate::h_batch::verify_pins_public_input_count),
     ("h_zkir::into_bytes_offcircuit_native", crate::h_zkir::into_bytes_offcircuit_native),
     ("h_zkir::into_bytes_incircuit_biguint", crate::h_zkir::into_bytes_incircuit_biguint),
-    ("h_params::params_read_allocation_bounded", crate::h_params::params_read_allocation_bounded),
-    ("h_params::params_read_shift", crate::h_params::params_read_shift),
+    ("h_transcript::assert_empty_iff_consumed", crate::h_transcript::assert_empty_iff_consumed),
+    ("h_transcript::hashable_read_fq_canonical", crate::h_transcript::hashable_read_fq_canonical),
+    ("h_transcript::hashable_read_g1_checked", crate::h_transcript::hashable_read_g1_checked),
+    ("h_transcript::serde_read_g1_processed_checked", crate::h_transcript::serde_read_g1_processed_checked),
+    ("h_transcript::guard_batch_verify_lengths", crate::h_transcript::guard_batch_verify_lengths),
 ];
 pub fn lookup(name: &str) -> Option<H> {
     ALL.iter().chain(crate::h_zkir::ARITY_HARNESSES.iter()).find(|(n, _)| *n == name).map(|(_, f)| *f)
